@@ -46,7 +46,7 @@ enum {
 };
 
 /* ---- run verdicts ---- */
-enum { RV_FINISHED = 0, RV_STUCK = 1, RV_NO_PROGRESS = 2, RV_VIOLATION = 3 };
+enum { RV_FINISHED = 0, RV_STUCK = 1, RV_NO_PROGRESS = 2, RV_VIOLATION = 3, RV_LIMIT = 4 /* a simulator limit was hit: run discarded, never a verdict */ };
 
 /* ---- fibre API ---- */
 int  nsim_spawn (void (*fn) (void *), void *arg);   /* returns tid; happens-before edge */
@@ -115,7 +115,7 @@ struct nsim_runcfg {
 	uint32_t mu_wlock, mu_rlock_field, mu_spinlock; /* mutex word layout from the repo headers */
 	const char *prop_force;      /* when set, every violation of the run is charged to this property */
 	int fail_alloc_index;        /* C19: the k-th constructor allocation fails (0: none) */
-	int policy;                  /* 0: seeded swarm; 4: strict priorities given by nsim_set_prio() */
+	int policy;                  /* 0: seeded swarm; 4: strict priorities given by nsim_set_prio(); 5: swarm restricted to fair policies (uniform, sticky) */
 };
 extern struct nsim_runcfg nsim_cfg;
 
